@@ -52,6 +52,7 @@ STREAMS (requests to the Lean driver drv_c03)
   rnote       the element written -> `readNote` must give every field of the note load_musicxml made of it
   cnote       the score's note -> `canon` (right-hand side of note_roundtrip) must give that loaded note too
   evnote      the element written -> `toEv` must give the event the measure streams are fed with (parse_written)
+  fnote       the score's note -> `writeNote (reexport (canon n))` must give the <note> of save(load(save(s))) (note_fixpoint)
   wdir/wsound/wattr   the object(s) behind an element of do_directions / do_attributes -> `writeDir`/`writeSound`/
               `writeAttributes` must give that element (the harness mirrors the loop structure, not the element building)
   dirs        the <direction> elements of a part in order -> `readDirections` must give the objects the importer's own
@@ -967,12 +968,19 @@ def note_read_text(ln, el):
         W.b("stop" in tt), W.b("start" in tt), "[" + ",".join(slurs) + "]", "[" + ",".join(tups) + "]"]) + ")"
 
 
-def note_streams(ev, p, wms, loaded, byname, idx_of):
+def note_streams(ev, p, wms, loaded, byname, idx_of, wms2=None):
     """wnote: the element written == writeNote(attrs);  rnote: readNote(element) == the note load_musicxml made;
     cnote: canon(attrs) == that note too (the right-hand side of the theorem note_roundtrip);  evnote: the event the
     measure model is given (parse_written) == toEv(element)"""
     ns = p.number_of_staves
     k = 0
+    els2 = None
+    if wms2 is not None:
+        # the same notes in the file written from the loaded score (fnote: element-level fixpoint)
+        els2 = [e for (_, evs) in wms2 for e in evs if e[0] == "n"]
+        els1 = [e for (_, evs) in wms for e in evs if e[0] == "n"]
+        if [e[1] for e in els1] != [e[1] for e in els2]:
+            els2 = None
     for (_, evs) in wms:
         for e in evs:
             if e[0] != "n":
@@ -989,6 +997,9 @@ def note_streams(ev, p, wms, loaded, byname, idx_of):
             if at is not None:
                 ev.requests.append("wnote " + at)
                 ev.impl.append(xml_text(el) + "/1")
+                if els2 is not None:
+                    ev.requests.append("fnote " + at)
+                    ev.impl.append(xml_text(els2[k - 1][7]))
             ev.requests.append("evnote %d %s" % (idx_of(e[1]), xt))
             ev.impl.append(ev_text([e], idx_of)[1:-1])
             if ln is not None:
@@ -1579,6 +1590,10 @@ def _check_roundtrip(ev, s, what, streams, from_file):
     if not streams:
         return
     # ---------------- correspondence streams
+    try:
+        written2 = parse_written(x2)[1]
+    except Exception:
+        written2 = None
     articulation_tables(ev, X)
     dyn_table(ev, X)
     for (pid, wms) in written:
@@ -1598,7 +1613,12 @@ def _check_roundtrip(ev, s, what, streams, from_file):
         if len(measures) != len(wms):
             continue
         if sum(1 for (_, e2) in wms for e in e2 if e[0] == "n") == len(loaded):
-            note_streams(ev, p, wms, loaded, {n.id: n for n in notes}, idx_of)
+            wms2 = None
+            if (not issues and written2 is not None and p2.number_of_staves == p.number_of_staves
+                    and all(n.voice for n in notes)):
+                # (without voice numbers the loaded score has other voices than the saved one: see the byte fixpoint reading)
+                wms2 = dict(written2).get(pid)
+            note_streams(ev, p, wms, loaded, {n.id: n for n in notes}, idx_of, wms2)
         for mi, (m, (_, evs)) in enumerate(zip(measures, wms)):
             # (i) writer model
             mm = model_measure(p, m, idx, X)
